@@ -331,6 +331,26 @@ func indexGuarded(in ssa.Instruction, s, idx ssa.Value) bool {
 			}
 		}
 	}
+	// i := search(s, ...) with i >= 0: the helper returns a range index over the slice it was
+	// given (or a negative constant), and the slice it was given is the one indexed here
+	if call, ok := idx.(*ssa.Call); ok && call.Call.StaticCallee() != nil && curProg != nil && curProg.InRepo(call.Call.StaticCallee()) {
+		if k := rangeIndexResultOf(call.Call.StaticCallee()); k >= 0 && k < len(call.Call.Args) && sameValue(call.Call.Args[k], s) {
+			for _, ct := range dominatingConds(blk) {
+				bo, ok := ct.Cond.(*ssa.BinOp)
+				if !ok || bo.X != idx {
+					continue
+				}
+				c, isC := constInt(bo.Y)
+				if !isC {
+					continue
+				}
+				if (bo.Op == token.GEQ && c == 0 && ct.Truth) || (bo.Op == token.LSS && c == 0 && !ct.Truth) ||
+					(bo.Op == token.NEQ && c == -1 && ct.Truth) || (bo.Op == token.EQL && c == -1 && !ct.Truth) || (bo.Op == token.GTR && c == -1 && ct.Truth) {
+					return true
+				}
+			}
+		}
+	}
 	// x % len(s) with len(s) > 0 ... established by an unsigned index < len guard
 	if rem, ok := stripConv(idx).(*ssa.BinOp); ok && rem.Op == token.REM {
 		if la := lenArg(rem.Y); la != nil && sameValue(la, s) {
@@ -863,4 +883,64 @@ func matchSiteShape(short, shape string, used map[string]int) (string, string) {
 		}
 	}
 	return "", ""
+}
+
+// rangeIndexResultOf: fn returns, on every path, either a negative constant or the index
+// variable of a range loop over its k-th parameter (a slice): 0 <= result < len(param k) whenever
+// the result is not negative.  Returns k, or -1.
+func rangeIndexResultOf(fn *ssa.Function) int {
+	if fn == nil || fn.Blocks == nil || fn.Signature.Results().Len() != 1 {
+		return -1
+	}
+	k := -1
+	okAll, hits := true, 0
+	eachInstr(fn, func(in ssa.Instruction) {
+		ret, ok := in.(*ssa.Return)
+		if !ok {
+			return
+		}
+		if c, isC := constInt(ret.Results[0]); isC {
+			if c >= 0 {
+				okAll = false
+			}
+			return
+		}
+		// the range index: phi+1 of a "rangeindex" phi, guarded by < len(param)
+		found := false
+		for _, o := range origins(ret.Results[0]) {
+			add, ok := o.(*ssa.BinOp)
+			if !ok || add.Op != token.ADD {
+				continue
+			}
+			phi, ok := add.X.(*ssa.Phi)
+			if !ok || phi.Comment != "rangeindex" {
+				continue
+			}
+			for _, ct := range dominatingConds(ret.Block()) {
+				bo, ok := ct.Cond.(*ssa.BinOp)
+				if !ok || bo.Op != token.LSS || !ct.Truth || bo.X != ssa.Value(add) {
+					continue
+				}
+				if la := lenArg(bo.Y); la != nil {
+					for i, par := range fn.Params {
+						if la == ssa.Value(par) {
+							if k == -1 || k == i {
+								k = i
+								found = true
+							}
+						}
+					}
+				}
+			}
+		}
+		if found {
+			hits++
+		} else {
+			okAll = false
+		}
+	})
+	if okAll && hits > 0 {
+		return k
+	}
+	return -1
 }
